@@ -830,7 +830,7 @@ class Contract(object):
         pre_state = {k: dict((a, _shallow(v)) for a, v in o.__dict__.items()) for k, o in pre_objs.items()}
         args, kwargs = self.call_args(env)
         f = self.func
-        ext = _native_externals(b.values)
+        ext = _native_externals(b.values, unit=self)
         ext.__enter__()
         try:
             if self.region is not None:
@@ -1095,6 +1095,7 @@ def contract(target, **kw):
     if ns is None:
         ns = sys._getframe(1).f_globals
     c = Contract(target, namespace=ns, **kw)
+    c.module = ns.get('__name__')
     REGISTRY[c.name] = c
     return c
 
@@ -1192,14 +1193,15 @@ def _m_trace(I, channel):
 
 class _native_externals(object):
     """native replay: every ghost-traced external is replaced by a recorder"""
-    def __init__(self, values=None):
+    def __init__(self, values=None, unit=None):
         self.values = values if values is not None else {}
+        self.unit = unit
     def __enter__(self):
         self.saved = []
         values = self.values
         _NATIVE_TRACE.clear()
         for c in REGISTRY.values():
-            if isinstance(c, TraceContract) and isinstance(c.target_spec, str):
+            if isinstance(c, TraceContract) and isinstance(c.target_spec, str) and _in_scope(c, self.unit):
                 modname, _, qual = c.target_spec.partition(':')
                 owner_spec, _, attr = qual.rpartition('.')
                 owner = resolve(modname + (':' + owner_spec if owner_spec else ''))
@@ -1240,9 +1242,13 @@ def native_stub(target_spec, fn):
     """native replays / cross-checks run `fn` in place of the target (the stand-in of a trusted summary contract)"""
     NATIVE_STUBS.append((target_spec, fn))
 
-def external(target, channel, **kw):
+def external(target, channel, local=False, **kw):
+    """local=True: the external holds only for the units of the module that declares it (another module of the same plan may put the
+    same function under contract with its real body)"""
     c = TraceContract(target, channel, **kw)
-    REGISTRY[c.name] = c
+    c.module = sys._getframe(1).f_globals.get('__name__')
+    c.local = local
+    REGISTRY[c.name + ('@' + c.module if local else '')] = c
     return c
 
 # ----------------------------------------------------------------------------
@@ -1395,10 +1401,15 @@ def register_model(target, fn):
 
 _KEEP = []
 
+def _in_scope(c, unit):
+    return not getattr(c, 'local', False) or unit is None or getattr(unit, 'module', None) == c.module
+
 def make_config(repo_root, verif_root, unit=None, extra_models=None):
     cfg = Config([repo_root], [verif_root])
     cfg.models.update(EXTRA_MODELS)
     for c in REGISTRY.values():
+        if not _in_scope(c, unit):
+            continue
         try:
             f = c.func
         except Exception as e:
@@ -1434,7 +1445,7 @@ def verify_unit(unit, repo_root, verif_root, rlimit=20000000, timeout_ms=60000, 
     is_lemma = isinstance(unit, Lemma)
     res = UnitResult(unit.name, 'lemma' if is_lemma else 'function')
     try:
-        cfg = make_config(repo_root, verif_root, extra_models=extra_models)
+        cfg = make_config(repo_root, verif_root, unit=unit, extra_models=extra_models)
         if is_lemma:
             cfg.target = None
             cfg.current_lemma = unit.name
